@@ -497,12 +497,24 @@ def correspond(ctx):
 
 # ------------------------------------------------------------------------------ search (oracle from the statement)
 
-def _series(n, ncol, weights):
-    """A series whose values reveal their time index: y[t] = 7t+3, X[t][j] = 1000+10t+j, w[t] = 5000+t."""
+_OFF = [0.0]          # fractional part added to the series by the current layout (see _series)
+LAYOUTS = ("plain", "strided-y", "half-intX", "fine-f32X")
+
+
+def _series(n, ncol, weights, layout="plain"):
+    """A series whose values reveal their time index: y[t] = 7t+3 (+ a fractional offset), X[t][j] = 1000+10t+j,
+    w[t] = 5000+t.  Layouts: `strided-y` = y is a column of a C-ordered table (a non-contiguous view);
+    `half-intX` = non-integral series with integer-typed exogenous features; `fine-f32X` = a series that float32
+    cannot hold exactly with float32 exogenous features."""
     import numpy
-    y = numpy.array([7 * t + 3 for t in range(n)], dtype=float)
+    off = {"half-intX": 0.5, "fine-f32X": 2.0 ** -20}.get(layout, 0.0)
+    _OFF[0] = off
+    y = numpy.array([7 * t + 3 + off for t in range(n)], dtype=float)
+    if layout == "strided-y":
+        y = numpy.column_stack([y, y + 0.25, -y]).copy(order="C")[:, 0]
+    xdt = {"half-intX": numpy.int64, "fine-f32X": numpy.float32}.get(layout, float)
     X = None if ncol is None else numpy.array([[1000 + 10 * t + j for j in range(ncol)] for t in range(n)],
-                                              dtype=float).reshape(n, ncol)
+                                              dtype=xdt).reshape(n, ncol)
     w = numpy.array([5000 + t for t in range(n)], dtype=float) if weights else None
     return X, y, w
 
@@ -517,8 +529,8 @@ def _check_row(r, xrow, yrow, wval, n, past, d1, d2, ncol):
                  "a frame row has all its lags and targets")]
 
     def idx(v):
-        q, rem = divmod(int(v) - 3, 7)
-        return q if rem == 0 and 0 <= q < n else None
+        q = int(round((float(v) - 3 - _OFF[0]) / 7))
+        return q if float(v) == 7 * q + 3 + _OFF[0] and 0 <= q < n else None
     lags = [idx(v) for v in xrow[nc:]]
     tgts = [idx(v) for v in yrow]
     if None in lags or None in tgts:
@@ -550,11 +562,11 @@ def _check_row(r, xrow, yrow, wval, n, past, d1, d2, ncol):
     return bad
 
 
-def _frame_violations(n, past, d2, ncol, weights):
+def _frame_violations(n, past, d2, ncol, weights, layout="plain"):
     """Run both variants on the real code (delay1 = 1) and apply the statement."""
     import numpy
     d1 = 1
-    X, y, w = _series(n, ncol, weights)
+    X, y, w = _series(n, ncol, weights, layout)
     bad = []
     nrow = n - d2 - past + 2
     enough = nrow >= 0
@@ -657,11 +669,12 @@ def search(ctx, hints):
                     for weights in (False, True):
                         if ncol == 2 and not weights and (n + past + d2) % 2:
                             continue
-                        bad = _frame_violations(n, past, d2, ncol, weights)
+                        layout = LAYOUTS[(n + 3 * past + 5 * d2 + (ncol or 0)) % len(LAYOUTS)] if n % 3 == 1 else "plain"
+                        bad = _frame_violations(n, past, d2, ncol, weights, layout)
                         evals += 1
-                        nontriv.add((n, past, d2, ncol, weights))
+                        nontriv.add((n, past, d2, ncol, weights, layout))
                         inp = {"kind": "frame", "n": n, "past": past, "delay1": 1, "delay2": d2, "ncol": ncol,
-                               "weights": weights}
+                               "weights": weights, "layout": layout}
                         for key, what, obs, req in bad:
                             vs.append(Violation("build_ts_X_y:" + key, what, inp, obs, req))
                         if len(samples) < 2 and n == 6 and past == 2:
@@ -711,7 +724,8 @@ def replay(ctx, item):
         bad = _mape_violations(inp["expected"], inp["predicted"], inp["weights"])
         out = [Violation(k, w, inp, o, r) for k, w, o, r in bad]
     else:
-        bad = _frame_violations(inp["n"], inp["past"], inp["delay2"], inp["ncol"], inp["weights"])
+        bad = _frame_violations(inp["n"], inp["past"], inp["delay2"], inp["ncol"], inp["weights"],
+                                inp.get("layout", "plain"))
         out = [Violation("build_ts_X_y:" + k, w, inp, o, r) for k, w, o, r in bad]
     best = {}
     for v in out:
